@@ -286,6 +286,9 @@ def load_known_findings():
     return json.load(open(p))
 
 
+CURRENT_REPORT = [None]      # the report of the run in progress (bin/check: violations already established survive a later tool error)
+
+
 class Report:
     """Collects violations of one property run, matches them against known findings, writes replay files."""
 
@@ -296,6 +299,7 @@ class Report:
         self.kf = [k for k in load_known_findings().get("known", []) if k.get("property") == prop]
         self.n = 0
         self.notes = []
+        CURRENT_REPORT[0] = self
         d = os.path.join(REPLAYS, prop)
         if os.path.isdir(d):     # replay files of an earlier run with the same tier/seed are stale
             for f in os.listdir(d):
